@@ -126,6 +126,44 @@ Proof.
     + destruct (Nat.eqb_spec r x); [congruence|]. rewrite IH by assumption. reflexivity.
 Qed.
 
+Lemma succ_not_first h l q y : NoDup (h :: l) -> succ_of (h :: l) q = Some y -> In y l.
+Proof.
+  intros Hnd Hs. cbn in Hs. destruct (Nat.eqb q h).
+  - destruct l; cbn in Hs; [discriminate|]. inversion Hs. left; reflexivity.
+  - eapply succ_in; exact Hs.
+Qed.
+
+Lemma succ_inj l : NoDup l -> forall q x y, succ_of l q = Some y -> succ_of l x = Some y -> q = x.
+Proof.
+  induction l as [|a l IH]; intros Hnd q x y Hq Hx; cbn in *; [discriminate|].
+  apply NoDup_cons_iff in Hnd. destruct Hnd as [Ha Hnd].
+  destruct (Nat.eqb_spec q a) as [Hqa|Hqa]; destruct (Nat.eqb_spec x a) as [Hxa|Hxa]; [congruence| | |].
+  - destruct l as [|b l']; cbn in Hq; [discriminate|]. inversion Hq; subst b.
+    exfalso. cbn in Hx. destruct (Nat.eqb_spec x y) as [Hxy|Hxy]; [rewrite Hxy in *|].
+    + apply NoDup_cons_iff in Hnd. destruct Hnd as [Hy _]. destruct l'; cbn in Hx; [discriminate|]. inversion Hx; subst. apply Hy. left; reflexivity.
+    + apply NoDup_cons_iff in Hnd. destruct Hnd as [Hy _]. apply Hy. eapply succ_in; exact Hx.
+  - destruct l as [|b l']; cbn in Hx; [discriminate|]. inversion Hx; subst b.
+    exfalso. cbn in Hq. destruct (Nat.eqb_spec q y) as [Hqy|Hqy]; [rewrite Hqy in *|].
+    + apply NoDup_cons_iff in Hnd. destruct Hnd as [Hy _]. destruct l'; cbn in Hq; [discriminate|]. inversion Hq; subst. apply Hy. left; reflexivity.
+    + apply NoDup_cons_iff in Hnd. destruct Hnd as [Hy _]. apply Hy. eapply succ_in; exact Hq.
+  - eapply IH; eauto.
+Qed.
+
+Lemma succ_ne l : NoDup l -> forall q y, succ_of l q = Some y -> y <> q.
+Proof.
+  induction l as [|a l IH]; intros Hnd q y Hs; cbn in Hs; [discriminate|].
+  apply NoDup_cons_iff in Hnd. destruct Hnd as [Ha Hnd].
+  destruct (Nat.eqb_spec q a) as [E|E].
+  - destruct l as [|b l']; cbn in Hs; [discriminate|]. inversion Hs; subst b. intros E2. apply Ha. left. congruence.
+  - eapply IH; eauto.
+Qed.
+
+Lemma del_LL h r l : h <> r -> del r (h :: l) = h :: del r l.
+Proof. intros H. rewrite del_cons. destruct (Nat.eqb_spec h r); [congruence|reflexivity]. Qed.
+
+Lemma ptr_inj o1 o2 : ptr o1 = ptr o2 -> o1 = o2.
+Proof. destruct o1, o2; cbn; intros H; congruence. Qed.
+
 Section Shape.
   Variables (C Rs : Type) (rs0 : Rs) (rs_enc : Rs -> list Z).
   Variable capply : C -> nat -> Z -> C * Rs.
@@ -210,7 +248,7 @@ Section Shape.
     gl_pl : forall r, In r (s_pl a) -> r < g_nrec g /\ stt g r <> st_inactive;
     gl_act : forall r, stt g r = st_active ->
                In r (s_pl a) \/ (exists t, w_my (s_v a t) = Some r /\ w_own (s_v a t) = OPub) \/
-               (exists t, w_deact (s_v a t) = Some r);
+               (exists t, w_deact (s_v a t) = Some r) \/ unowned a r;
     gl_rem : forall r, stt g r = st_removed -> unowned a r;
     gl_fresh : forall r, g_nrec g <= r -> stt g r <> st_removed;
     gl_head : stt g head <> st_removed /\ 1 <= g_nrec g;
@@ -226,7 +264,8 @@ Section Shape.
     k_link : w_link l = true -> w_hold l = true /\ forall r, w_my l = Some r -> In r (s_pl a) /\ stt g r = st_active;
     k_cur : forall q, w_cur l = Some q ->
               w_hold l = true /\ In q (LL a) /\
-              forall v, w_tgt l = Some v -> In v (s_pl a) -> In v (suffix_from q (LL a));
+              (forall v, w_tgt l = Some v -> In v (s_pl a) -> In v (suffix_from q (LL a))) /\
+              (w_pp l <> None -> In q (s_pl a));
     k_pp : forall x, w_pp l = Some x -> w_hold l = true /\ In x (LL a);
     k_nx : forall r n, w_nx l = Some (r, n) -> w_hold l = true /\ In r (s_pl a) /\ nxt g r = n;
     k_deact : forall r, w_deact l = Some r ->
@@ -234,7 +273,7 @@ Section Shape.
               forall t0, w_my (s_v a t0) = Some r -> w_own (s_v a t0) = OUnk /\ stt g r = st_active;
     k_cand : forall r, w_cand l = Some r -> unowned a r /\ r < g_nrec g /\ r <> head;
     k_vic : forall r, w_vic l = Some r -> unowned a r /\ r < g_nrec g /\ r <> head /\ ~ In r (s_pl a);
-    k_tgt : forall v, w_tgt l = Some v -> w_my l = Some v \/ unowned a v }.
+    k_tgt : forall v, w_tgt l = Some v -> w_my l = Some v \/ (unowned a v /\ v < g_nrec g) }.
 
   Definition Inv (g : G) (a : aux) (tr : list (nat * ev)) : Prop :=
     has_lost tr = false /\ Glob g a /\ forall t, Know g a (s_v a t).
@@ -279,7 +318,7 @@ Section Shape.
       intros t0 Ht0. destruct (Hr r) as (_ & E & _). rewrite E. auto.
     - intros r Hc. rewrite En. auto.
     - intros r Hc. rewrite En. auto.
-    - auto.
+    - rewrite En. auto.
   Qed.
 
   Lemma Know_ext g g' a l : same_shape g g' -> Know g a l -> Know g' a l.
@@ -313,7 +352,7 @@ Section Shape.
       rewrite Eo. apply D. rewrite <- E1. congruence.
     - intros r Hc. destruct (k_cand0 r Hc) as (A & B). split; auto. apply unowned_setv; auto.
     - intros r Hc. destruct (k_vic0 r Hc) as (A & B). split; auto. apply unowned_setv; auto.
-    - intros v Hc. destruct (k_tgt0 v Hc) as [A|A]; [left; exact A|right; apply unowned_setv; auto].
+    - intros v Hc. destruct (k_tgt0 v Hc) as [A|[A B]]; [left; exact A|right; split; [apply unowned_setv; auto|exact B]].
   Qed.
 
   Lemma Glob_setv g a t l' :
@@ -327,11 +366,12 @@ Section Shape.
         [destruct (Nat.eqb_spec u t) as [E1|E1]|destruct (Nat.eqb_spec u' t) as [E1|E1]]; congruence.
     - intros u u' r H1 H2. cbn in *. unfold upd in *. apply (gl_inj0 u u' r);
         [destruct (Nat.eqb_spec u t) as [E1|E1]|destruct (Nat.eqb_spec u' t) as [E1|E1]]; congruence.
-    - intros r Hs. destruct (gl_act0 r Hs) as [A|[(u & A & B)|(u & A)]]; auto.
+    - intros r Hs. destruct (gl_act0 r Hs) as [A|[(u & A & B)|[(u & A)|A]]]; auto.
       + right. left. exists u. cbn. unfold upd. destruct (Nat.eqb_spec u t) as [E1|E1]; [rewrite Em, Eo, <- E1|]; auto.
       + destruct (in_dec Nat.eq_dec r (s_pl a)) as [Hin|Hnin]; [left; exact Hin|].
-        right. right. exists u. cbn. unfold upd. destruct (Nat.eqb_spec u t) as [E1|E1]; [|exact A].
+        right. right. left. exists u. cbn. unfold upd. destruct (Nat.eqb_spec u t) as [E1|E1]; [|exact A].
         apply Ed; [rewrite <- E1; exact A|exact Hs|exact Hnin].
+      + right. right. right. apply unowned_setv; auto.
     - intros r Hs. apply unowned_setv; auto.
   Qed.
 
@@ -460,9 +500,10 @@ Section Shape.
             try (rewrite Hfree in H2; discriminate); try (rewrite Hfree in H1; discriminate).
         * intros u u' r H1 H2. cbn in *. unfold upd in *. apply (gl_inj0 u u' r);
             [destruct (Nat.eqb_spec u t) as [E1|E1]|destruct (Nat.eqb_spec u' t) as [E1|E1]]; subst; auto.
-        * intros r Hs. destruct (gl_act0 r Hs) as [A|[(u & A & B)|(u & A)]]; auto.
+        * intros r Hs. destruct (gl_act0 r Hs) as [A|[(u & A & B)|[(u & A)|A]]]; auto.
           -- right. left. exists u. cbn. unfold upd. destruct (Nat.eqb_spec u t) as [E1|E1]; subst; auto.
-          -- right. right. exists u. cbn. unfold upd. destruct (Nat.eqb_spec u t) as [E1|E1]; subst; auto.
+          -- right. right. left. exists u. cbn. unfold upd. destruct (Nat.eqb_spec u t) as [E1|E1]; subst; auto.
+          -- right. right. right. apply unowned_setv; [subst l; reflexivity|]. exact A.
         * intros r Hs. apply unowned_setv; [subst l; reflexivity|]. auto.
       + intros u. apply Know_setv; [subst l; reflexivity|subst l; reflexivity|]. apply Know_lock.
         cbn. unfold upd. destruct (Nat.eqb_spec u t) as [E1|E1]; [|apply HK].
@@ -514,7 +555,7 @@ Section Shape.
         exfalso. apply E. eapply (gl_inj HG); eauto.
     - intros x Hc. destruct (k_cand0 x Hc) as (A & B). rewrite En. split; auto.
     - intros x Hc. destruct (k_vic0 x Hc) as (A & B). rewrite En. split; auto.
-    - intros v Hc. destruct (k_tgt0 v Hc) as [A|A]; auto.
+    - intros v Hc. rewrite En. destruct (k_tgt0 v Hc) as [A|[A B]]; auto.
   Qed.
 
   (** [t] holds the combiner lock and unlinks / deactivates / answers / frees *)
@@ -554,7 +595,7 @@ Section Shape.
     - intros r0 Hd. destruct (k_deact0 r0 Hd) as (A & _). congruence.
     - intros x Hc. destruct (k_cand0 x Hc) as (A & B). rewrite En. split; [apply Hun; exact A|exact B].
     - intros x Hc. destruct (k_vic0 x Hc) as (A & B & D & E). rewrite En. split; [apply Hun; exact A|]. repeat split; auto.
-    - intros v Hc. destruct (k_tgt0 v Hc) as [A|A]; [left; exact A|right; apply Hun; exact A].
+    - intros v Hc. rewrite ?En. destruct (k_tgt0 v Hc) as [A|[A B]]; [left; exact A|right; split; [apply Hun; exact A|exact B]].
   Qed.
   (** *** one field of one record *)
   Lemma upd_fields (g : G) r f v x :
@@ -666,9 +707,9 @@ Section Shape.
         assert (Hd' : forall u, w_deact (s_v a u) = Some x -> exists u0, w_deact (s_v (setv a t l') u0) = Some x).
         { intros u Hu. exists u. cbn. unfold upd. destruct (Nat.eqb_spec u t) as [E|E]; [rewrite Ed, <- Hv, <- E|]; exact Hu. }
         destruct (Nat.eq_dec x r) as [->|Hne].
-        + destruct (O2 Hs) as [A|[[A B]|(u & A)]]; [auto| |right; right; eauto].
+        + destruct (O2 Hs) as [A|[[A B]|(u & A)]]; [auto| |right; right; left; eauto].
           right. left. exists t. cbn. rewrite upd_same. auto.
-        + rewrite (Hxs x Hne) in Hs. destruct (gl_act0 x Hs) as [A|[(u & A & B)|(u & A)]]; [auto| |right; right; eauto].
+        + rewrite (Hxs x Hne) in Hs. destruct (gl_act0 x Hs) as [A|[(u & A & B)|[(u & A)|A]]]; [auto| |right; right; left; eauto|right; right; right; apply Hun; exact A].
           right. left. exists u. cbn. unfold upd. destruct (Nat.eqb_spec u t) as [E|E]; [|auto]. subst u. congruence.
       - intros x Hs. destruct (Nat.eq_dec x r) as [->|Hne].
         + pose proof (O3 Hs) as E0. intros v. cbn. unfold upd. destruct (Nat.eqb_spec v t) as [E|E]; [rewrite E0; discriminate|].
@@ -718,7 +759,7 @@ Section Shape.
     - intros Hw r0 H0. assert (r0 = r) by congruence. subst r0. auto.
     - rewrite Ek, Eh. intros Hk. destruct (k_link0 Hk) as [A B]. split; auto. intros r0 H0. assert (r0 = r) by congruence. subst r0.
       rewrite (Hlk Hk). apply B. exact Hm.
-    - rewrite Ec, Eh, Et. exact k_cur0.
+    - rewrite Ec, Eh, Et, Ep. exact k_cur0.
     - rewrite Ep, Eh. exact k_pp0.
     - rewrite Enx, Eh. intros r0 n Hn. destruct (k_nx0 r0 n Hn) as (A & B & D). split; auto. split; auto.
       destruct (Nat.eq_dec r0 r) as [->|Hne]; [|destruct (Hx r0 Hne) as (E & _); rewrite E; exact D].
@@ -732,7 +773,7 @@ Section Shape.
         destruct (Hde Hd) as [E1 _]. rewrite E1. exact D2.
     - rewrite Eca, En. intros x Hc. destruct (k_cand0 x Hc) as (A & B). split; [apply Hun; exact A|exact B].
     - rewrite Evi, En. intros x Hc. destruct (k_vic0 x Hc) as (A & B). split; [apply Hun; exact A|exact B].
-    - rewrite Et, Em. intros v Hc. destruct (k_tgt0 v Hc) as [A|A]; [left; exact A|right; apply Hun; exact A].
+    - rewrite Et, Em, En. intros v Hc. destruct (k_tgt0 v Hc) as [A|[A B]]; [left; exact A|right; split; [apply Hun; exact A|exact B]].
   Qed.
   Ltac fields_of Hf x := let A := fresh "A" in let B := fresh "B" in let D := fresh "D" in
     destruct (Hf x) as (A & B & D); rewrite ?A, ?B, ?D; clear A B D.
@@ -758,7 +799,7 @@ Section Shape.
     - congruence.
     - apply nolost_acc.
     - rewrite Hr2. intros Hin. apply (gl_pl HG). exact Hin.
-    - rewrite Hr2. intros Hs. destruct (gl_act HG _ Hs) as [A|[(u & A & B)|(u & A)]]; [auto| |right; right; eauto].
+    - rewrite Hr2. intros Hs. destruct (gl_act HG _ Hs) as [A|[(u & A & B)|[(u & A)|A]]]; [auto| |right; right; eauto|exfalso; apply (A t); rewrite Hv; exact Hm].
       assert (u = t) by (apply (gl_inj HG u t A); rewrite Hv; exact Hm). subst u. rewrite Hv in B. right. left. cbn. auto.
     - rewrite Hr2. intros Hs. exfalso. apply (gl_rem HG Hs t). rewrite Hv. exact Hm.
     - rewrite Hr2. apply (gl_st HG).
@@ -837,7 +878,7 @@ Section Shape.
     - intros _. exact Hnin.
     - apply nolost_acc.
     - intros Hin. contradiction.
-    - rewrite Hr2. intros Hs. pose proof (gl_act HG) as X. destruct (X r Hs) as [A|[(u & A & B)|(u & A)]]; [auto| |right; right; eauto].
+    - rewrite Hr2. intros Hs. pose proof (gl_act HG) as X. destruct (X r Hs) as [A|[(u & A & B)|[(u & A)|A]]]; [auto| |right; right; eauto|exfalso; apply (A t); rewrite Hv; exact Hm].
       assert (u = t) by (apply (gl_inj HG u t A); rewrite Hv; exact Hm). subst u. rewrite Hv in B. right. left. cbn. auto.
     - rewrite Hr2. intros Hs. exfalso. pose proof (gl_rem HG) as X. apply (X r Hs t). rewrite Hv. exact Hm.
     - rewrite Hr2. apply (gl_st HG).
@@ -885,7 +926,7 @@ Section Shape.
       + exists (setv a t (set_link l true)). split; [|split; [apply frame_setv|rewrite view_setv; exact K1]].
         eapply Inv_view; eauto; [|apply nolost_acc].
         destruct K0. split; cbn; auto. intros _. split; [exact Eh|]. intros r0 H0. assert (r0 = r) by congruence. subst r0.
-        split; [|exact Ea]. pose proof (gl_act HG) as X. destruct (X r Ea) as [A|[(u & A & B)|(u & A)]]; [exact A| |].
+        split; [|exact Ea]. pose proof (gl_act HG) as X. destruct (X r Ea) as [A|[(u & A & B)|[(u & A)|A]]]; [exact A| | |exfalso; apply (A t); exact Hm0].
         * exfalso. assert (u = t) by (apply (gl_inj HG u t A); exact Hm0). subst u. rewrite Hv in B. congruence.
         * exfalso. pose proof (k_deact (HK u) A) as (Hh & _). assert (u = t).
           { apply (gl_uniq HG u t Hh). pose proof (f_equal w_hold Hv) as Hx. cbn in Hx. congruence. }
@@ -920,7 +961,6 @@ Section Shape.
         * intros Hw. apply (k_wait K0 Hw Hm).
         * intros Hw. apply (k_done K0 Hw Hm).
   Qed.
-(* ==DEV== *)
   (** *** the link CAS: m_pHead->pNext.compare_exchange( p, pRec ) *)
   Lemma in_LL_insert a r q : In q (LL a) -> In q (head :: r :: s_pl a).
   Proof. intros [E|H]; [left; exact E|right; right; exact H]. Qed.
@@ -952,12 +992,13 @@ Section Shape.
     - intros Hw r0 H0. destruct (Hx r0) as (_ & E & _). rewrite E. auto.
     - intros Hk. destruct (k_link0 Hk) as [A B]. split; auto. intros r0 H0. destruct (B r0 H0) as [B1 B2].
       destruct (Hx r0) as (E & _). rewrite E. split; [right; exact B1|exact B2].
-    - intros q Hq. destruct (k_cur0 q Hq) as (A & B & D). split; auto. split; [apply in_LL_insert; exact B|].
+    - intros q Hq. destruct (k_cur0 q Hq) as (A & B & D & Fp). split; auto. split; [apply in_LL_insert; exact B|].
+      split; [|intros Hp; right; apply Fp; exact Hp].
       intros v Hv [E|Hin].
-      + exfalso. subst v. destruct (k_tgt0 r Hv) as [F|F]; [apply (Hr0 r F); reflexivity|apply (F t); exact Hm].
+      + exfalso. subst v. destruct (k_tgt0 r Hv) as [F|[F _]]; [apply (Hr0 r F); reflexivity|apply (F t); exact Hm].
       + specialize (D v Hv Hin). destruct B as [E|B].
-        * subst q. cbn. rewrite Nat.eqb_refl. right. right. exact Hin.
-        * destruct (Hpl q B) as [Q1 Q2]. rewrite sf_insert by assumption. exact D.
+        * subst q. unfold LL. cbn. right. right. exact Hin.
+        * destruct (Hpl q B) as [Q1 Q2]. unfold LL in *. cbn [s_pl setv setpl] in *. rewrite sf_insert by assumption. exact D.
     - intros x Hxp. destruct (k_pp0 x Hxp) as (A & B). split; auto. apply in_LL_insert; exact B.
     - intros r0 n Hn. destruct (k_nx0 r0 n Hn) as (A & B & D). split; auto. split; [right; exact B|].
       destruct (Hx r0) as (_ & _ & E). rewrite E; [exact D|]. apply (Hpl r0 B).
@@ -969,6 +1010,477 @@ Section Shape.
     - intros x Hc. destruct (k_cand0 x Hc) as (A & B). rewrite En. split; [apply Hun; exact A|exact B].
     - intros x Hc. destruct (k_vic0 x Hc) as (A & B & D & E). rewrite En. split; [apply Hun; exact A|]. split; auto. split; auto.
       intros [F|Hin]; [|contradiction]. subst x. apply (A t). exact Hm.
-    - intros v Hc. destruct (k_tgt0 v Hc) as [A|A]; [left; exact A|right; apply Hun; exact A].
+    - intros v Hc. rewrite ?En. destruct (k_tgt0 v Hc) as [A|[A B]]; [left; exact A|right; split; [apply Hun; exact A|exact B]].
+  Qed.
+  Lemma safe_cas_link_b R t r p (k : V -> prog R) l Q :
+    w_my l = Some r -> w_own l = OPub -> w_mynx l = Some p -> w_link l = false -> w_deact l = None ->
+    w_cur l = None -> w_pp l = None -> w_nx l = None ->
+    (forall v, v <> p -> safe t (k (vN v)) l Q) ->
+    safe t (k (vN p)) (set_link (set_mynx (set_own l OUnk) None) (w_hold l)) Q ->
+    safe t (Act (@a_cas C Rs P head FNext p (Datatypes.S r)) k) l Q.
+  Proof.
+    intros Hm Ho Hnx Hlk Hde Hcu Hpp Hn K1 K2. cbn [Conc.safe]. intros g a tr Hi Hv. unfold view in Hv. unfold a_cas.
+    pose proof Hi as (Hl & HG & HK). pose proof (HK t) as K0. rewrite Hv in K0.
+    assert (Hm0 : w_my (s_v a t) = Some r) by (rewrite Hv; exact Hm).
+    assert (Ho0 : w_own (s_v a t) = OPub) by (rewrite Hv; exact Ho).
+    change (get_fld (g_recs g head) FNext) with (nxt g head).
+    destruct (Nat.eqb_spec (nxt g head) p) as [Ep|Ep]; cbn [fst snd].
+    2:{ exists a. split; [apply Inv_trace; [exact Hi|apply nolost_acc]|]. split; [apply frame_refl|].
+        unfold view. rewrite Hv. apply K1. exact Ep. }
+    rewrite Ep.
+    own_fields g head FNext (Datatypes.S r). set (g' := upd_rec g head (set_fld (g_recs g head) FNext (Datatypes.S r))) in *.
+    set (l' := set_link (set_mynx (set_own l OUnk) None) (w_hold l)).
+    exists (setv (setpl a (r :: s_pl a)) t l').
+    split; [|split; [eapply frame_trans; [apply frame_setpl|apply frame_setv]|unfold view; cbn; rewrite upd_same; exact K2]].
+    destruct (k_my K0 Hm) as [Hr1 Hr2].
+    assert (Hnin : ~ In r (s_pl a)) by (apply (k_unl K0); [rewrite Ho; discriminate|exact Hm]).
+    assert (Hact : stt g r = st_active) by (apply (k_pub K0 Ho Hm)).
+    assert (Hnr : nxt g r = p) by (apply (k_mynx K0 Hnx); [rewrite Ho; discriminate|exact Hm]).
+    assert (Hhr : head <> r) by (unfold head; lia).
+    assert (Hx : forall x, stt g' x = stt g x /\ rq g' x = rq g x /\ (x <> head -> nxt g' x = nxt g x)).
+    { intros x. fields_of Hf x. destruct (Nat.eqb_spec x head); repeat split; auto; congruence. }
+    assert (Hh : nxt g' head = Datatypes.S r) by (fields_of Hf head; rewrite Nat.eqb_refl; reflexivity).
+    assert (Hun : forall x, unowned a x <-> unowned (setv (setpl a (r :: s_pl a)) t l') x).
+    { intros x. unfold unowned; cbn. split; intros H v; specialize (H v); unfold upd in *;
+        (destruct (Nat.eqb_spec v t) as [E|E]; [rewrite E in *|]); subst l'; cbn in *; congruence. }
+    apply Inv_intro; [apply nolost_tag; [exact Hl|apply nolost_acc]| |].
+    - destruct HG. split; unfold LL; cbn [s_pl setv setpl].
+      + cbn. intros Hfr u. cbn. unfold upd. destruct (Nat.eqb_spec u t) as [E|E]; [subst l'; cbn; rewrite <- Hv, <- E|]; auto.
+      + intros u u' H1 H2. cbn in *. unfold upd in *. apply gl_uniq0;
+          [destruct (Nat.eqb_spec u t) as [E|E]|destruct (Nat.eqb_spec u' t) as [E|E]]; subst; subst l'; cbn in *; congruence.
+      + intros u u' r0 H1 H2. cbn in *. unfold upd in *. apply (gl_inj0 u u' r0);
+          [destruct (Nat.eqb_spec u t) as [E|E]|destruct (Nat.eqb_spec u' t) as [E|E]]; subst; subst l'; cbn in *; congruence.
+      + intros q Hq. rewrite succ_insert by assumption. unfold LL in gl_link0.
+        destruct (Nat.eqb_spec q head) as [->|Hqh]; [exact Hh|].
+        destruct (Hx q) as (_ & _ & E). rewrite (E Hqh).
+        destruct (Nat.eqb_spec q r) as [->|Hqr].
+        * rewrite Hnr, <- Ep. rewrite (gl_link0 head (or_introl eq_refl)). cbn. reflexivity.
+        * apply gl_link0. destruct Hq as [E1|[E1|Hin]]; [congruence|congruence|right; exact Hin].
+      + unfold LL in gl_nodup0. apply NoDup_cons_iff in gl_nodup0. destruct gl_nodup0 as [A B].
+        constructor; [intros [E|Hin]; [congruence|contradiction]|]. constructor; assumption.
+      + intros x [E|Hin].
+        * subst x. destruct (Hx r) as (E & _). rewrite E, Hact. split; [exact Hr2|unfold st_active, st_inactive; discriminate].
+        * destruct (Hx x) as (E & _). rewrite E. apply gl_pl0. exact Hin.
+      + intros x Hs. destruct (Hx x) as (E & _). rewrite E in Hs. destruct (gl_act0 x Hs) as [A|[(u & A & B)|[(u & A)|A]]].
+        * left. right. exact A.
+        * destruct (Nat.eq_dec u t) as [->|Hne].
+          -- left. left. congruence.
+          -- right. left. exists u. cbn. rewrite upd_other by exact Hne. auto.
+        * right. right. left. exists u. cbn. unfold upd. destruct (Nat.eqb_spec u t) as [E1|E1]; [|exact A].
+          subst u. rewrite Hv in A. congruence.
+        * right. right. right. apply Hun. exact A.
+      + intros x Hs. apply Hun. apply gl_rem0. destruct (Hx x) as (E & _). rewrite <- E. exact Hs.
+      + intros x Hle. destruct (Hx x) as (E & _). rewrite E. apply gl_fresh0. exact Hle.
+      + destruct (Hx head) as (E & _). rewrite E. exact gl_head0.
+      + intros x. destruct (Hx x) as (E & _). rewrite E. apply gl_st0.
+    - intros u. cbn. unfold upd. destruct (Nat.eqb_spec u t) as [E|E].
+      2:{ exact (@Know_link_step g g' a t r l' u HG HK E Hm0 Ho0 Hm eq_refl Hx). }
+      destruct K0. subst l'. split; cbn.
+      + exact k_my0.
+      + intros F. exfalso. apply F. reflexivity.
+      + discriminate.
+      + discriminate.
+      + intros Hw r0 H0. destruct (Hx r0) as (_ & E2 & _). rewrite E2. auto.
+      + intros Hw r0 H0. destruct (Hx r0) as (_ & E2 & _). rewrite E2. auto.
+      + intros Hh'. split; [exact Hh'|]. intros r0 H0. assert (r0 = r) by congruence. subst r0.
+        destruct (Hx r) as (E2 & _). rewrite E2. split; [left; reflexivity|exact Hact].
+      + rewrite Hcu. discriminate.
+      + rewrite Hpp. discriminate.
+      + rewrite Hn. discriminate.
+      + rewrite Hde. discriminate.
+      + intros x Hc. destruct (k_cand0 x Hc) as (A & B). split; [apply Hun; exact A|exact B].
+      + intros x Hc. destruct (k_vic0 x Hc) as (A & B & D & F). split; [apply Hun; exact A|]. split; auto. split; auto.
+        intros [E2|Hin]; [|contradiction]. subst x. apply (A t). exact Hm0.
+      + intros v Hc. destruct (k_tgt0 v Hc) as [A|[A B]]; [left; exact A|right; split; [apply Hun; exact A|exact B]].
+  Qed.
+  (** *** New(): a fresh record *)
+  Lemma safe_new_b R t (k : V -> prog R) l Q :
+    w_my l = None -> w_own l = OUnk -> w_mynx l = None -> w_wait l = false -> w_done l = false -> w_link l = false ->
+    (forall r, 1 <= r -> safe t (k (vN r)) (set_own (set_my l (Some r)) OUnl) Q) ->
+    safe t (Act (@a_new C Rs rs0 P) k) l Q.
+  Proof.
+    intros Hm Ho Hnx Hw Hdn Hlk K. cbn [Conc.safe]. intros g a tr Hi Hv. unfold view in Hv. unfold a_new; cbn [fst snd].
+    pose proof Hi as (Hl & HG & HK). pose proof (HK t) as K0. rewrite Hv in K0.
+    set (r := g_nrec g).
+    set (g' := mkG (g_count g) (g_lock g) (fun i => if Nat.eqb i r then rec0 rs0 else g_recs g i) (Datatypes.S r) (g_cont g)).
+    set (l' := set_own (set_my l (Some r)) OUnl).
+    assert (Hr1 : 1 <= r) by (apply (gl_head HG)).
+    exists (setv a t l'). split; [|split; [apply frame_setv|rewrite view_setv; apply K; exact Hr1]].
+    assert (Hx : forall x, x <> r -> nxt g' x = nxt g x /\ stt g' x = stt g x /\ rq g' x = rq g x).
+    { intros x Hne. unfold g', nxt, stt, rq; cbn. destruct (Nat.eqb_spec x r); [congruence|auto]. }
+    assert (Hnew : nxt g' r = 0 /\ stt g' r = 0 /\ rq g' r = 0).
+    { unfold g', nxt, stt, rq; cbn. rewrite Nat.eqb_refl. auto. }
+    destruct Hnew as (N1 & N2 & N3).
+    assert (Hmy : forall u r0, w_my (s_v a u) = Some r0 -> r0 < r) by (intros u r0 H0; apply (k_my (HK u) H0)).
+    assert (Hpl : forall x, In x (s_pl a) -> x < r) by (intros x Hin; apply (gl_pl HG _ Hin)).
+    assert (Hun : forall x, x <> r -> unowned a x -> unowned (setv a t l') x).
+    { intros x Hne H v. cbn. unfold upd. destruct (Nat.eqb_spec v t) as [E|E]; [subst l'; cbn; congruence|apply H]. }
+    apply Inv_intro; [apply nolost_tag; [exact Hl|repeat constructor]| |].
+    - destruct HG. split; unfold LL; cbn [s_pl setv setpl].
+      + intros Hfr u. cbn. unfold upd. destruct (Nat.eqb_spec u t) as [E|E]; [subst l'; cbn; rewrite <- Hv, <- E|]; auto.
+      + intros u u' H1 H2. cbn in *. unfold upd in *. apply gl_uniq0;
+          [destruct (Nat.eqb_spec u t) as [E|E]|destruct (Nat.eqb_spec u' t) as [E|E]]; subst; subst l'; cbn in *; congruence.
+      + intros u u' r0 H1 H2. cbn in *. unfold upd in *.
+        destruct (Nat.eqb_spec u t) as [E1|E1]; destruct (Nat.eqb_spec u' t) as [E2|E2]; try congruence.
+        * subst l'; cbn in H1. inversion H1; subst r0. apply Hmy in H2. lia.
+        * subst l'; cbn in H2. inversion H2; subst r0. apply Hmy in H1. lia.
+        * eapply gl_inj0; eauto.
+      + intros q Hq. unfold LL in gl_link0. rewrite <- (gl_link0 q Hq). apply Hx.
+        destruct Hq as [E|Hin]; [unfold head in E; lia|apply Hpl in Hin; lia].
+      + exact gl_nodup0.
+      + intros x Hin. destruct (gl_pl0 x Hin) as [A B]. cbn. split; [unfold r; lia|]. destruct (Hx x) as (_ & E & _); [apply Hpl in Hin; lia|]. rewrite E. exact B.
+      + intros x Hs. destruct (Nat.eq_dec x r) as [->|Hne]; [rewrite N2 in Hs; discriminate|].
+        destruct (Hx x Hne) as (_ & E & _). rewrite E in Hs. destruct (gl_act0 x Hs) as [A|[(u & A & B)|[(u & A)|A]]]; [auto| | |right; right; right; apply Hun; assumption].
+        * right. left. exists u. cbn. unfold upd. destruct (Nat.eqb_spec u t) as [E1|E1]; [|auto]. subst u. rewrite Hv in A. congruence.
+        * right. right. left. exists u. cbn. unfold upd. destruct (Nat.eqb_spec u t) as [E1|E1]; [|auto]. subst u. subst l'. cbn. rewrite <- Hv. exact A.
+      + intros x Hs. destruct (Nat.eq_dec x r) as [->|Hne]; [rewrite N2 in Hs; discriminate|].
+        destruct (Hx x Hne) as (_ & E & _). rewrite E in Hs. apply Hun; auto.
+      + intros x Hle. cbn in Hle. destruct (Hx x) as (_ & E & _); [lia|]. rewrite E. apply gl_fresh0. unfold r in *. lia.
+      + cbn. destruct gl_head0 as [A B]. destruct (Hx head) as (_ & E & _); [unfold head; lia|]. rewrite E. split; [exact A|lia].
+      + intros x. destruct (Nat.eq_dec x r) as [->|Hne]; [rewrite N2; lia|]. destruct (Hx x Hne) as (_ & E & _). rewrite E. auto.
+    - intros u. cbn. unfold upd. destruct (Nat.eqb_spec u t) as [E|E].
+      + destruct K0. subst l'. split; cbn.
+        * intros r0 H0. inversion H0; subst r0. unfold r. lia.
+        * intros _ r0 H0. inversion H0; subst r0. intros Hin. apply Hpl in Hin. lia.
+        * discriminate.
+        * rewrite Hnx. discriminate.
+        * rewrite Hw. discriminate.
+        * rewrite Hdn. discriminate.
+        * rewrite Hlk. discriminate.
+        * exact k_cur0.
+        * exact k_pp0.
+        * intros r0 n Hn. destruct (k_nx0 r0 n Hn) as (A & B & D). split; auto. split; auto.
+          destruct (Hx r0) as (E2 & _); [apply Hpl in B; lia|]. rewrite E2. exact D.
+        * intros r0 Hd. destruct (k_deact0 r0 Hd) as (A & B & B' & D). split; auto. split; auto. split; [unfold r; lia|].
+          intros t0 Ht0. unfold upd in *. destruct (Nat.eqb_spec t0 t) as [E2|E2]; [cbn in Ht0; inversion Ht0; unfold r in *; lia|].
+          destruct (D t0 Ht0) as [D1 D2]. split; auto. destruct (Hx r0) as (_ & E3 & _); [unfold r; lia|]. rewrite E3. exact D2.
+        * intros x Hc. destruct (k_cand0 x Hc) as (A & B & D). split; [apply Hun; [unfold r; lia|exact A]|]. split; [unfold r; lia|exact D].
+        * intros x Hc. destruct (k_vic0 x Hc) as (A & B & D & F). split; [apply Hun; [unfold r; lia|exact A]|]. repeat split; auto; unfold r; lia.
+        * intros v Hc. destruct (k_tgt0 v Hc) as [A|[A B]]; [congruence|]. right. split; [apply Hun; [unfold r; lia|exact A]|unfold r; lia].
+      + pose proof (HK u) as Ku. destruct Ku.
+        assert (Hr0 : forall r0, w_my (s_v a u) = Some r0 -> r0 <> r) by (intros r0 H0; apply Hmy in H0; lia).
+        split; cbn [s_pl setv].
+        * intros r0 H0. cbn. destruct (k_my0 r0 H0). unfold r. lia.
+        * auto.
+        * intros Hou r0 H0. destruct (Hx r0 (Hr0 r0 H0)) as (_ & E2 & _). rewrite E2. auto.
+        * intros p Hp Hou r0 H0. destruct (Hx r0 (Hr0 r0 H0)) as (E2 & _). rewrite E2. eauto.
+        * intros Hw' r0 H0. destruct (Hx r0 (Hr0 r0 H0)) as (_ & _ & E2). rewrite E2. auto.
+        * intros Hw' r0 H0. destruct (Hx r0 (Hr0 r0 H0)) as (_ & _ & E2). rewrite E2. auto.
+        * intros Hk. destruct (k_link0 Hk) as [A B]. split; auto. intros r0 H0. destruct (Hx r0 (Hr0 r0 H0)) as (_ & E2 & _). rewrite E2. auto.
+        * exact k_cur0.
+        * exact k_pp0.
+        * intros r0 n Hn. destruct (k_nx0 r0 n Hn) as (A & B & D). split; auto. split; auto.
+          destruct (Hx r0) as (E2 & _); [apply Hpl in B; lia|]. rewrite E2. exact D.
+        * intros r0 Hd. destruct (k_deact0 r0 Hd) as (A & B & B' & D). split; auto. split; auto. split; [cbn; unfold r in *; lia|].
+          intros t0 Ht0. cbn in Ht0. unfold upd in *. cbn. unfold upd. destruct (Nat.eqb_spec t0 t) as [E2|E2].
+          -- subst l'. cbn in Ht0. inversion Ht0. unfold r in *. lia.
+          -- destruct (D t0 Ht0) as [D1 D2]. split; auto. destruct (Hx r0) as (_ & E3 & _); [unfold r; lia|]. rewrite E3. exact D2.
+        * intros x Hc. destruct (k_cand0 x Hc) as (A & B & D). split; [apply Hun; [unfold r; lia|exact A]|]. split; [cbn; unfold r; lia|exact D].
+        * intros x Hc. destruct (k_vic0 x Hc) as (A & B & D & F). split; [apply Hun; [unfold r; lia|exact A]|]. repeat split; auto; cbn; unfold r; lia.
+        * intros v Hc. destruct (k_tgt0 v Hc) as [A|[A B]]; [left; exact A|]. right. split; [apply Hun; [unfold r; lia|exact A]|cbn; unfold r; lia].
+  Qed.
+  (** *** thread exit *)
+  Lemma safe_exit_b R t r (k : V -> prog R) l Q :
+    w_my l = Some r -> w_own l = OUnk -> w_hold l = false -> w_link l = false ->
+    (forall v, safe t (k v) (set_my l None) Q) ->
+    safe t (Act (@a_st C Rs P r FState st_removed) k) l Q.
+  Proof.
+    intros Hm Ho Hh Hlk K. cbn [Conc.safe]. intros g a tr Hi Hv. unfold view in Hv. unfold a_st; cbn [fst snd].
+    pose proof Hi as (Hl & HG & HK). pose proof (HK t) as K0. rewrite Hv in K0.
+    assert (Hm0 : w_my (s_v a t) = Some r) by (rewrite Hv; exact Hm).
+    own_fields g r FState st_removed. set (g' := upd_rec g r (set_fld (g_recs g r) FState st_removed)) in *.
+    exists (setv a t (set_my l None)). split; [|split; [apply frame_setv|rewrite view_setv; apply K]].
+    assert (Hxo : forall x, x <> r -> nxt g' x = nxt g x /\ stt g' x = stt g x /\ rq g' x = rq g x).
+    { intros x Hne. fields_of Hf x. destruct (Nat.eqb_spec x r); [congruence|auto]. }
+    assert (Hr : nxt g' r = nxt g r /\ stt g' r = st_removed /\ rq g' r = rq g r).
+    { fields_of Hf r. rewrite Nat.eqb_refl. auto. }
+    destruct Hr as (Hr1 & Hr2 & Hr3).
+    refine (@own_step g g' a tr t l (set_my l None) r _ Hi Hv Hm (or_intror _) eq_refl eq_refl eq_refl eq_refl Hxo _ _ _ _ _ _ _ _ _).
+    - reflexivity.
+    - congruence.
+    - apply nolost_acc.
+    - rewrite Hr2. unfold st_removed, st_inactive. discriminate.
+    - rewrite Hr2. unfold st_removed, st_active. discriminate.
+    - reflexivity.
+    - rewrite Hr2. unfold st_removed. lia.
+    - cbn. rewrite Ho. discriminate.
+    - cbn. discriminate.
+    - intros HG'. destruct K0.
+      assert (Hun : forall x, unowned a x -> unowned (setv a t (set_my l None)) x).
+      { intros x H v. cbn. unfold upd. destruct (Nat.eqb_spec v t) as [E|E]; [cbn; discriminate|apply H]. }
+      split; cbn; try discriminate.
+      + rewrite Hlk. discriminate.
+      + intros q Hq. destruct (k_cur0 q Hq) as (A & _). congruence.
+      + intros x Hx. destruct (k_pp0 x Hx) as (A & _). congruence.
+      + intros r0 n Hn. destruct (k_nx0 r0 n Hn) as (A & _). congruence.
+      + intros r0 Hd. destruct (k_deact0 r0 Hd) as (A & _). congruence.
+      + intros x Hc. destruct (k_cand0 x Hc) as (A & B). split; [apply Hun; exact A|exact B].
+      + intros x Hc. destruct (k_vic0 x Hc) as (A & B). split; [apply Hun; exact A|exact B].
+      + intros v Hc. right. destruct (k_tgt0 v Hc) as [A|[A B]].
+        * assert (v = r) by congruence. subst v. split; [|apply (k_my0 r Hm)].
+          intros u. cbn. unfold upd. destruct (Nat.eqb_spec u t) as [E|E]; [cbn; discriminate|].
+          intros Hu. apply E. apply (gl_inj HG u t Hu Hm0).
+        * split; [apply Hun; exact A|exact B].
+  Qed.
+
+  (** *** generic step of the lock holder *)
+  Lemma holder_step g g' a tr t l l' pl' es :
+    Inv g a tr -> s_v a t = l -> w_hold l = true -> w_my l' = w_my l -> w_own l' = w_own l -> w_hold l' = true ->
+    g_nrec g' = g_nrec g -> (forall x, In x pl' -> In x (s_pl a)) ->
+    (forall x, nxt g' x <> nxt g x -> In x (LL a) \/ unowned a x) ->
+    (forall x, stt g' x <> stt g x -> forall v, w_my (s_v a v) = Some x -> w_own (s_v a v) = OUnk) ->
+    (forall x, rq g' x <> rq g x -> rq g' x = req_Response \/ unowned a x) ->
+    nolost es ->
+    Glob g' (setv (setpl a pl') t l') ->
+    Know g' (setv (setpl a pl') t l') l' ->
+    Inv g' (setv (setpl a pl') t l') (tr ++ Conc.tag t es).
+  Proof.
+    intros (Hl & HG & HK) Hv Hh Em Eo Eh En Hsub Hnx Hst Hrq He HG' Hkt.
+    apply Inv_intro; [apply nolost_tag; assumption|exact HG'|].
+    intros u. cbn. unfold upd. destruct (Nat.eqb_spec u t) as [E|E]; [exact Hkt|].
+    refine (@Know_holder_step g g' a t pl' l' u HG HK E _ _ _ En Hsub Hnx Hst Hrq); rewrite Hv; assumption.
+  Qed.
+  (** operation_done by the combiner *)
+  Definition done_if (l : sview) (q : nat) : sview :=
+    match w_my l with Some r => if Nat.eqb r q then set_done l true else l | None => l end.
+
+  Lemma done_if_same l q : w_my (done_if l q) = w_my l /\ w_own (done_if l q) = w_own l /\ w_hold (done_if l q) = w_hold l /\
+    w_deact (done_if l q) = w_deact l /\ w_link (done_if l q) = w_link l /\ w_cur (done_if l q) = w_cur l /\
+    w_tgt (done_if l q) = w_tgt l /\ w_pp (done_if l q) = w_pp l /\ w_nx (done_if l q) = w_nx l /\
+    w_cand (done_if l q) = w_cand l /\ w_vic (done_if l q) = w_vic l /\ w_mynx (done_if l q) = w_mynx l /\
+    w_wait (done_if l q) = w_wait l.
+  Proof. unfold done_if. destruct (w_my l) as [r|] eqn:E; [destruct (Nat.eqb r q)|]; cbn; rewrite ?E; repeat split; auto. Qed.
+
+  Lemma safe_done_b R t q (k : V -> prog R) l Q :
+    w_hold l = true ->
+    (forall v, safe t (k v) (done_if l q) Q) ->
+    safe t (Act (@a_st C Rs P q FReq req_Response) k) l Q.
+  Proof.
+    intros Hh K. cbn [Conc.safe]. intros g a tr Hi Hv. unfold view in Hv. unfold a_st; cbn [fst snd].
+    pose proof Hi as (Hl & HG & HK). pose proof (HK t) as K0. rewrite Hv in K0.
+    own_fields g q FReq req_Response. set (g' := upd_rec g q (set_fld (g_recs g q) FReq req_Response)) in *.
+    destruct (done_if_same l q) as (D1 & D2 & D3 & D4 & D5 & D6 & D7 & D8 & D9 & D10 & D11 & D12 & D13).
+    exists (setv (setpl a (s_pl a)) t (done_if l q)).
+    split; [|split; [eapply frame_trans; [apply frame_setpl|apply frame_setv]|unfold view; cbn; rewrite upd_same; apply K]].
+    assert (Hx : forall x, nxt g' x = nxt g x /\ stt g' x = stt g x /\ (x <> q -> rq g' x = rq g x) /\ rq g' q = req_Response).
+    { intros x. fields_of Hf x. fields_of Hf q. rewrite Nat.eqb_refl. destruct (Nat.eqb_spec x q); repeat split; auto; congruence. }
+    assert (Hun : forall x, unowned a x <-> unowned (setv (setpl a (s_pl a)) t (done_if l q)) x).
+    { intros x. unfold unowned; cbn. split; intros H v; specialize (H v); unfold upd in *;
+        (destruct (Nat.eqb_spec v t) as [E|E]; [rewrite E in *|]); congruence. }
+    eapply holder_step with (l := l); eauto; try congruence.
+    - intros x Hne. exfalso. apply Hne. apply (Hx x).
+    - intros x Hne. exfalso. apply Hne. apply (Hx x).
+    - intros x Hne. left. destruct (Nat.eq_dec x q) as [->|Hq]; [apply (Hx q)|exfalso; apply Hne; apply (Hx x); exact Hq].
+    - apply nolost_acc.
+    - assert (HG1 : Glob g' a) by (apply Glob_same_lists with (g := g); auto; intros x; destruct (Hx x) as (A & B & _); auto).
+      assert (HG2 : Glob g' (setv a t (done_if l q))) by (apply Glob_setv; auto; try congruence; intros r0 Hd _ _; congruence).
+      destruct HG2. split; auto.
+    - destruct K0. split; cbn [s_pl setv setpl]; rewrite ?D1, ?D2, ?D3, ?D4, ?D5, ?D6, ?D7, ?D8, ?D9, ?D10, ?D11, ?D12, ?D13; auto.
+      + intros Ho r0 H0. destruct (Hx r0) as (_ & B & _). rewrite B. auto.
+      + intros p Hp Ho r0 H0. destruct (Hx r0) as (A & _). rewrite A. eauto.
+      + intros Hw r0 H0. destruct (Nat.eq_dec r0 q) as [->|Hq]; [destruct (Hx q) as (_ & _ & _ & E); rewrite E; unfold req_Response, req_Empty; lia|].
+        destruct (Hx r0) as (_ & _ & E & _). rewrite (E Hq). auto.
+      + intros Hw r0 H0. destruct (Nat.eq_dec r0 q) as [->|Hq]; [apply (Hx q)|].
+        destruct (Hx r0) as (_ & _ & E & _). rewrite (E Hq). apply k_done0; [|exact H0].
+        unfold done_if in Hw. rewrite H0 in Hw. destruct (Nat.eqb_spec r0 q); [contradiction|exact Hw].
+      + intros Hk. destruct (k_link0 Hk) as [A B]. split; auto. intros r0 H0. destruct (Hx r0) as (_ & E & _). rewrite E. auto.
+      + intros r0 n Hn. destruct (k_nx0 r0 n Hn) as (A & B & D). destruct (Hx r0) as (E & _). rewrite E. auto.
+      + intros r0 Hd. destruct (k_deact0 r0 Hd) as (A & B & B' & D). split; auto. split; auto. split; auto.
+        intros t0 Ht0. cbn in Ht0. unfold upd in *. cbn. unfold upd. destruct (Hx r0) as (_ & E & _). rewrite E.
+        destruct (Nat.eqb_spec t0 t) as [E2|E2]; [rewrite D2; rewrite <- Hv; apply D; rewrite Hv; congruence|apply D; exact Ht0].
+      + intros x Hc. destruct (k_cand0 x Hc) as (A & B). split; [apply Hun; exact A|exact B].
+      + intros x Hc. destruct (k_vic0 x Hc) as (A & B). split; [apply Hun; exact A|exact B].
+      + intros v Hc. destruct (k_tgt0 v Hc) as [A|[A B]]; [left; exact A|right; split; [apply Hun; exact A|exact B]].
+  Qed.
+  (** the requester reads its request word *)
+  Lemma safe_ld_req_own_b R t r (k : V -> prog R) l Q :
+    w_my l = Some r -> w_wait l = true ->
+    safe t (k (vN req_Response)) (set_done l true) Q ->
+    (forall v, v <> req_Response -> v <> req_Empty -> safe t (k (vN v)) l Q) ->
+    safe t (Act (@a_ld C Rs P r FReq) k) l Q.
+  Proof.
+    intros Hm Hw K1 K2. cbn [Conc.safe]. intros g a tr Hi Hv. unfold view in Hv. unfold a_ld; cbn [fst snd get_fld].
+    pose proof Hi as (Hl & HG & HK). pose proof (HK t) as K0. rewrite Hv in K0. fold (rq g r).
+    pose proof (k_wait K0 Hw Hm) as Hne.
+    destruct (Nat.eq_dec (rq g r) req_Response) as [E|E].
+    - rewrite E. exists (setv a t (set_done l true)). split; [|split; [apply frame_setv|rewrite view_setv; exact K1]].
+      eapply Inv_view; eauto; [|apply nolost_acc]. destruct K0. split; cbn; auto.
+      intros _ r0 H0. assert (r0 = r) by congruence. subst r0. exact E.
+    - exists a. split; [apply Inv_trace; [exact Hi|apply nolost_acc]|]. split; [apply frame_refl|]. unfold view. rewrite Hv. apply K2; assumption.
+  Qed.
+
+  (** publish reads m_pHead->pNext: it cannot point to the (unlinked) record being published *)
+  Lemma safe_ld_head_next_pub_b R t r (k : V -> prog R) l Q :
+    w_my l = Some r -> w_own l <> OUnk ->
+    (forall v, v <> Datatypes.S r -> safe t (k (vN v)) l Q) ->
+    safe t (Act (@a_ld C Rs P head FNext) k) l Q.
+  Proof.
+    intros Hm Ho K. cbn [Conc.safe]. intros g a tr Hi Hv. unfold view in Hv. unfold a_ld; cbn [fst snd get_fld].
+    pose proof Hi as (Hl & HG & HK). pose proof (HK t) as K0. rewrite Hv in K0. fold (nxt g head).
+    exists a. split; [apply Inv_trace; [exact Hi|apply nolost_acc]|]. split; [apply frame_refl|]. unfold view. rewrite Hv. apply K.
+    assert (Hin : In head (LL a)) by (left; reflexivity). rewrite (gl_link HG Hin). unfold LL. cbn. destruct (s_pl a) as [|y pl] eqn:Epl; cbn; [discriminate|].
+    intros E. inversion E; subst y. apply (k_unl K0 Ho Hm). rewrite Epl. left; reflexivity.
+  Qed.
+
+  (** m_Mutex.unlock() *)
+  Lemma safe_unlock_b R t (k : V -> prog R) l Q :
+    w_hold l = true -> w_link l = false -> w_cur l = None -> w_pp l = None -> w_nx l = None -> w_deact l = None ->
+    (forall v, safe t (k v) (set_hold l false) Q) ->
+    safe t (Act (@a_unlock C Rs P) k) l Q.
+  Proof.
+    intros Hh Hlk Hc Hp Hn Hd K. cbn [Conc.safe]. intros g a tr (Hl & HG & HK) Hv. unfold view in Hv. unfold a_unlock; cbn [fst snd].
+    exists (setv a t (set_hold l false)). split; [|split; [apply frame_setv|rewrite view_setv; apply K]].
+    assert (Hoth : forall u, u <> t -> w_hold (s_v a u) = false).
+    { intros u Hne. destruct (w_hold (s_v a u)) eqn:E; auto. exfalso. apply Hne. apply (gl_uniq HG u t E). rewrite Hv. exact Hh. }
+    apply Inv_intro; [apply nolost_tag; [exact Hl|repeat constructor]| |].
+    - destruct HG. split; auto.
+      + intros _ u. cbn. unfold upd. destruct (Nat.eqb_spec u t) as [E|E]; [reflexivity|apply Hoth; exact E].
+      + intros u u' H1 H2. cbn in *. unfold upd in *.
+        destruct (Nat.eqb_spec u t) as [E1|E1]; [cbn in H1; discriminate|]. rewrite (Hoth u E1) in H1. discriminate.
+      + intros u u' r H1 H2. cbn in *. unfold upd in *. apply (gl_inj0 u u' r);
+          [destruct (Nat.eqb_spec u t) as [E|E]|destruct (Nat.eqb_spec u' t) as [E|E]]; subst; auto.
+      + intros r Hs. destruct (gl_act0 r Hs) as [A|[(u & A & B)|[(u & A)|A]]]; auto.
+        * right. left. exists u. cbn. unfold upd. destruct (Nat.eqb_spec u t) as [E|E]; subst; auto.
+        * right. right. left. exists u. cbn. unfold upd. destruct (Nat.eqb_spec u t) as [E|E]; subst; auto.
+        * right. right. right. apply unowned_setv; [subst l; reflexivity|]. exact A.
+      + intros r Hs. apply unowned_setv; [subst l; reflexivity|]. auto.
+    - intros u. apply Know_setv; [subst l; reflexivity|subst l; reflexivity|]. apply Know_lock.
+      cbn. unfold upd. destruct (Nat.eqb_spec u t) as [E|E]; [|apply HK].
+      specialize (HK t). rewrite Hv in HK. destruct HK. split; cbn; auto.
+      + rewrite Hlk. discriminate.
+      + rewrite Hc. discriminate.
+      + rewrite Hp. discriminate.
+      + rewrite Hn. discriminate.
+      + rewrite Hd. discriminate.
+  Qed.
+  (** *** walks along the publication list *)
+  Definition tgt_of (v : nat) : option nat := match v with O => None | Datatypes.S y => Some y end.
+
+  (** starting at m_pHead *)
+  Lemma GhostOK_start t l tg :
+    w_hold l = true -> w_pp l = None -> (forall v, tg = Some v -> w_my l = Some v) ->
+    GhostOK t l (set_tgt (set_cur l (Some head)) tg).
+  Proof.
+    intros Hh Hp Htg. unfold GhostOK. split; [reflexivity|]. split; [reflexivity|]. split; [reflexivity|]. split; [auto|].
+    intros g a HG HK Hv. pose proof (HK t) as K0. rewrite Hv in K0. destruct K0. split; cbn; auto.
+    - intros q Hq. inversion Hq; subst q. split; [exact Hh|]. split; [left; reflexivity|]. split; [|rewrite Hp; intros F; exfalso; apply F; reflexivity].
+      intros v Hv' Hin. unfold LL. cbn. right. exact Hin.
+  Qed.
+
+  (** reading pNext of the current record, nothing being looked for *)
+  Lemma safe_ld_next_walk_b R t q (k : V -> prog R) l Q :
+    w_cur l = Some q -> w_tgt l = None -> w_pp l = None ->
+    (forall v, safe t (k (vN v)) (set_cur l (tgt_of v)) Q) ->
+    safe t (Act (@a_ld C Rs P q FNext) k) l Q.
+  Proof.
+    intros Hc Ht Hp K. cbn [Conc.safe]. intros g a tr Hi Hv. unfold view in Hv. unfold a_ld; cbn [fst snd get_fld].
+    pose proof Hi as (Hl & HG & HK). pose proof (HK t) as K0. rewrite Hv in K0. fold (nxt g q).
+    exists (setv a t (set_cur l (tgt_of (nxt g q)))). split; [|split; [apply frame_setv|rewrite view_setv; apply K]].
+    destruct (k_cur K0 Hc) as (Hh & Hin & _).
+    eapply Inv_view; eauto; [|apply nolost_acc].
+    rewrite (gl_link HG Hin). destruct (succ_of (LL a) q) as [y'|] eqn:Es; cbn [ptr tgt_of].
+    - apply succ_in in Es. remember (LL a) as L0. destruct K0. split; cbn; auto.
+      intros y Hy. inversion Hy; subst y'.
+      split; [exact Hh|]. split; [rewrite HeqL0 in Es; exact Es|]. split; [rewrite Ht; discriminate|rewrite Hp; intros F; exfalso; apply F; reflexivity].
+    - remember (LL a) as L0. destruct K0. split; cbn; auto. discriminate.
+  Qed.
+
+  (** reading pNext of the current record while looking for the combiner's own (linked) record [r] *)
+  Lemma safe_ld_next_seek_b R t q r (k : V -> prog R) l Q :
+    w_cur l = Some q -> w_tgt l = Some r -> w_my l = Some r -> w_link l = true -> w_pp l = None -> q <> r ->
+    (forall y, safe t (k (vN (Datatypes.S y))) (set_cur l (Some y)) Q) ->
+    safe t (Act (@a_ld C Rs P q FNext) k) l Q.
+  Proof.
+    intros Hc Ht Hm Hlk Hp Hne K. cbn [Conc.safe]. intros g a tr Hi Hv. unfold view in Hv. unfold a_ld; cbn [fst snd get_fld].
+    pose proof Hi as (Hl & HG & HK). pose proof (HK t) as K0. rewrite Hv in K0. fold (nxt g q).
+    destruct (k_cur K0 Hc) as (Hh & Hin & Hsf & _). destruct (k_link K0 Hlk) as [_ Hlr]. destruct (Hlr r Hm) as [Hrin _].
+    specialize (Hsf r Ht Hrin).
+    destruct (@sf_succ _ (gl_nodup HG) q r Hsf (not_eq_sym Hne)) as (y & Es & Hy).
+    rewrite (gl_link HG Hin), Es. cbn [ptr].
+    exists (setv a t (set_cur l (Some y))). split; [|split; [apply frame_setv|rewrite view_setv; apply K]].
+    eapply Inv_view; eauto; [|apply nolost_acc].
+    apply succ_in in Es. remember (LL a) as L0. destruct K0. split; cbn; auto.
+    intros y' Hy'. inversion Hy'; subst y'. split; [exact Hh|]. split; [rewrite HeqL0 in Es; exact Es|].
+    split; [|rewrite Hp; intros F; exfalso; apply F; reflexivity].
+    intros v Hv' Hvin. rewrite Ht in Hv'. inversion Hv'; subst v. rewrite HeqL0 in Hy. exact Hy.
+  Qed.
+
+  (** is_published( victim ): reading pNext of the current record; the victim, if linked, is further on *)
+  Lemma safe_ld_next_pub_b R t q vi (k : V -> prog R) l Q :
+    w_cur l = Some q -> w_tgt l = Some vi -> w_cand l = Some vi -> w_pp l = None -> q <> vi ->
+    safe t (k (vN 0)) (set_vic (set_tgt (set_cur l None) None) (Some vi)) Q ->
+    (forall y, safe t (k (vN (Datatypes.S y))) (set_cur l (Some y)) Q) ->
+    safe t (Act (@a_ld C Rs P q FNext) k) l Q.
+  Proof.
+    intros Hc Ht Hca Hp Hne K0' K1. cbn [Conc.safe]. intros g a tr Hi Hv. unfold view in Hv. unfold a_ld; cbn [fst snd get_fld].
+    pose proof Hi as (Hl & HG & HK). pose proof (HK t) as K0. rewrite Hv in K0. fold (nxt g q).
+    destruct (k_cur K0 Hc) as (Hh & Hin & Hsf & _). specialize (Hsf vi Ht).
+    rewrite (gl_link HG Hin). destruct (succ_of (LL a) q) as [y|] eqn:Es; cbn [ptr].
+    - exists (setv a t (set_cur l (Some y))). split; [|split; [apply frame_setv|rewrite view_setv; apply K1]].
+      eapply Inv_view; eauto; [|apply nolost_acc].
+      assert (Hsf2 : In vi (s_pl a) -> In vi (suffix_from y (LL a))).
+      { intros Hvin. destruct (@sf_succ _ (gl_nodup HG) q vi (Hsf Hvin) (not_eq_sym Hne)) as (y2 & Es2 & Hy2). congruence. }
+      apply succ_in in Es. remember (LL a) as L0. destruct K0. split; cbn; auto.
+      intros y' Hy'. inversion Hy'; subst y'. split; [exact Hh|]. split; [rewrite HeqL0 in Es; exact Es|].
+      split; [|rewrite Hp; intros F; exfalso; apply F; reflexivity].
+      intros v Hv' Hvin. rewrite Ht in Hv'. inversion Hv'; subst v. specialize (Hsf2 Hvin). rewrite HeqL0 in Hsf2. exact Hsf2.
+    - exists (setv a t (set_vic (set_tgt (set_cur l None) None) (Some vi))).
+      split; [|split; [apply frame_setv|rewrite view_setv; exact K0']].
+      eapply Inv_view; eauto; [|apply nolost_acc].
+      destruct (k_cand K0 Hca) as (Hu & Hlt & Hnh).
+      assert (Hnv : ~ In vi (s_pl a)).
+      { intros Hvin. apply Hne. symmetry. eapply sf_last; [apply Hsf; exact Hvin|exact Es]. }
+      remember (LL a) as L0. destruct K0. split; cbn; auto; try discriminate.
+      intros x Hx. inversion Hx; subst x. repeat split; auto.
+  Qed.
+(* ==DEV== *)
+  (** *** compact_list, loop 1 *)
+
+  (** the combiner reads nState of its own linked record: it is active *)
+  Lemma safe_ld_state_linked_b R t r (k : V -> prog R) l Q :
+    w_my l = Some r -> w_link l = true ->
+    safe t (k (vN st_active)) l Q -> safe t (Act (@a_ld C Rs P r FState) k) l Q.
+  Proof.
+    intros Hm Hlk K. cbn [Conc.safe]. intros g a tr Hi Hv. unfold view in Hv. unfold a_ld; cbn [fst snd get_fld].
+    pose proof Hi as (Hl & HG & HK). pose proof (HK t) as K0. rewrite Hv in K0. fold (stt g r).
+    destruct (k_link K0 Hlk) as [_ B]. destruct (B r Hm) as [_ Ea]. rewrite Ea.
+    exists a. split; [apply Inv_trace; [exact Hi|apply nolost_acc]|]. split; [apply frame_refl|unfold view; rewrite Hv; exact K].
+  Qed.
+
+  (** pPrev = x; p = x->pNext.load() *)
+  Lemma safe_ld_next_pp_b R t x (k : V -> prog R) l Q :
+    w_hold l = true -> (x = head \/ w_cur l = Some x) -> w_tgt l = None ->
+    (forall v, safe t (k (vN v)) (set_nx (set_cur (set_pp l (Some x)) (tgt_of v)) None) Q) ->
+    safe t (Act (@a_ld C Rs P x FNext) k) l Q.
+  Proof.
+    intros Hh Hx Ht K. cbn [Conc.safe]. intros g a tr Hi Hv. unfold view in Hv. unfold a_ld; cbn [fst snd get_fld].
+    pose proof Hi as (Hl & HG & HK). pose proof (HK t) as K0. rewrite Hv in K0. fold (nxt g x).
+    assert (Hin : In x (LL a)).
+    { destruct Hx as [E|Hc]; [subst x; left; reflexivity|]. apply (k_cur K0 Hc). }
+    exists (setv a t (set_nx (set_cur (set_pp l (Some x)) (tgt_of (nxt g x))) None)).
+    split; [|split; [apply frame_setv|rewrite view_setv; apply K]].
+    eapply Inv_view; eauto; [|apply nolost_acc].
+    rewrite (gl_link HG Hin). destruct (succ_of (LL a) x) as [y|] eqn:Es; cbn [ptr tgt_of].
+    - pose proof (@succ_not_first head (s_pl a) x y (gl_nodup HG) Es) as Hy. apply succ_in in Es.
+      remember (LL a) as L0. destruct K0. split; cbn; auto; try discriminate.
+      + intros y' Hy'. inversion Hy'; subst y'. split; [exact Hh|]. split; [rewrite HeqL0 in Es; exact Es|].
+        split; [rewrite Ht; discriminate|intros _; exact Hy].
+      + intros x' Hx'. inversion Hx'; subst x'. split; [exact Hh|rewrite HeqL0 in Hin; exact Hin].
+    - remember (LL a) as L0. destruct K0. split; cbn; auto; try discriminate.
+      intros x' Hx'. inversion Hx'; subst x'. split; [exact Hh|rewrite HeqL0 in Hin; exact Hin].
+  Qed.
+
+  (** pNext = p->pNext.load() before the unlink CAS *)
+  Lemma safe_ld_next_nx_b R t r (k : V -> prog R) l Q :
+    w_cur l = Some r -> w_pp l <> None ->
+    (forall v, safe t (k (vN v)) (set_nx l (Some (r, v))) Q) ->
+    safe t (Act (@a_ld C Rs P r FNext) k) l Q.
+  Proof.
+    intros Hc Hp K. cbn [Conc.safe]. intros g a tr Hi Hv. unfold view in Hv. unfold a_ld; cbn [fst snd get_fld].
+    pose proof Hi as (Hl & HG & HK). pose proof (HK t) as K0. rewrite Hv in K0. fold (nxt g r).
+    destruct (k_cur K0 Hc) as (Hh & _ & _ & Hrin). specialize (Hrin Hp).
+    exists (setv a t (set_nx l (Some (r, nxt g r)))). split; [|split; [apply frame_setv|rewrite view_setv; apply K]].
+    eapply Inv_view; eauto; [|apply nolost_acc].
+    destruct K0. split; cbn; auto. intros r0 n Hn. inversion Hn; subst r0 n. auto.
   Qed.
 End Shape.
